@@ -18,6 +18,7 @@ import (
 	"os"
 	"os/exec"
 	"path/filepath"
+	"regexp"
 	"runtime"
 	"sort"
 	"strings"
@@ -27,6 +28,7 @@ import (
 
 type c08Case struct {
 	Cmd    string          `json:"cmd"`
+	Hist   string          `json:"hist"` // ci: added | modified | moved
 	Mech   string          `json:"mech"`
 	Args   json.RawMessage `json:"args"`
 	Bcfg   dCfg            `json:"bcfg"`
@@ -123,7 +125,7 @@ func runGit(dir string, args ...string) error {
 }
 
 // c08Workdir lays out the rule files (and for `ci` the two-commit repository) of a scenario.
-func c08Workdir(dir, command string) error {
+func c08Workdir(dir, command, hist string) error {
 	if err := os.MkdirAll(filepath.Join(dir, "rules"), 0o755); err != nil {
 		return err
 	}
@@ -135,6 +137,19 @@ func c08Workdir(dir, command string) error {
 	}
 	if err := os.WriteFile(filepath.Join(dir, "rules", "dep.yml"), []byte(c08DepBase), 0o644); err != nil {
 		return err
+	}
+	// how the rule file comes to be on the branch: added there (default), present on the base branch with other
+	// expressions and modified on the branch, or present under another name and renamed on the branch
+	switch hist {
+	case "modified":
+		re := regexp.MustCompile(`(?m)^(    expr: ).*$`)
+		if err := os.WriteFile(filepath.Join(dir, "rules", "r.yml"), re.ReplaceAll([]byte(c08Rules), []byte("${1}vector(1)")), 0o644); err != nil {
+			return err
+		}
+	case "moved":
+		if err := os.WriteFile(filepath.Join(dir, "rules", "old.yml"), []byte(c08Rules), 0o644); err != nil {
+			return err
+		}
 	}
 	if err := runGit(dir, "add", "."); err != nil {
 		return err
@@ -148,7 +163,11 @@ func c08Workdir(dir, command string) error {
 	if err := os.WriteFile(filepath.Join(dir, "rules", "dep.yml"), []byte(c08DepHead), 0o644); err != nil {
 		return err
 	}
-	if err := os.WriteFile(filepath.Join(dir, "rules", "r.yml"), []byte(c08Rules), 0o644); err != nil {
+	if hist == "moved" {
+		if err := runGit(dir, "mv", "rules/old.yml", "rules/r.yml"); err != nil {
+			return err
+		}
+	} else if err := os.WriteFile(filepath.Join(dir, "rules", "r.yml"), []byte(c08Rules), 0o644); err != nil {
 		return err
 	}
 	if err := runGit(dir, "add", "."); err != nil {
@@ -304,6 +323,7 @@ func init() {
 		type scen struct {
 			key   string
 			cmd   string
+			hist  string
 			cfg   dCfg
 			cfgR  json.RawMessage
 			cases []int
@@ -319,10 +339,10 @@ func init() {
 				return fmt.Errorf("case %d: %v", i+1, err)
 			}
 			cases[i].BcfgR, cases[i].VcfgR, cases[i].VflR = rm["bcfg"], rm["vcfg"], rm["vflags"]
-			key := cases[i].Cmd + "\x00" + string(rm["bcfg"])
+			key := cases[i].Cmd + "\x00" + cases[i].Hist + "\x00" + string(rm["bcfg"])
 			s := byKey[key]
 			if s == nil {
-				s = &scen{key: key, cmd: cases[i].Cmd, cfg: cases[i].Bcfg, cfgR: rm["bcfg"]}
+				s = &scen{key: key, cmd: cases[i].Cmd, hist: cases[i].Hist, cfg: cases[i].Bcfg, cfgR: rm["bcfg"]}
 				byKey[key] = s
 				scens = append(scens, s)
 			}
@@ -341,14 +361,14 @@ func init() {
 			dir := filepath.Join(root, fmt.Sprintf("s%d", si))
 			scratch := filepath.Join(root, fmt.Sprintf("s%d-tmp", si))
 			os.MkdirAll(scratch, 0o755)
-			if err := c08Workdir(dir, s.cmd); err != nil {
+			if err := c08Workdir(dir, s.cmd, s.hist); err != nil {
 				return err
 			}
 			reps, chk, rc, err := runPint(pint, dir, scratch, "base", s.cmd, renderCfg(s.cfg), nil)
 			if err != nil {
 				return fmt.Errorf("scenario %d base: %v", si+1, err)
 			}
-			out.Write(map[string]any{"ev": "Base", "scen": si + 1, "cmd": s.cmd, "cfg": s.cfgR, "reports": reps, "checks": chk, "rc": rc})
+			out.Write(map[string]any{"ev": "Base", "scen": si + 1, "cmd": s.cmd, "hist": s.hist, "cfg": s.cfgR, "reports": reps, "checks": chk, "rc": rc})
 			results := make([]map[string]any, len(s.cases))
 			var mu sync.Mutex
 			var firstErr error
